@@ -39,4 +39,10 @@ EnumNext == \/ ops < 3 /\ \E m \in Built, pf \in Postfixes :
                   (FixedSavers => m = KthSaver[ops + 1]) /\ SavePostfix(m, "f1", pf)
             \/ ops = 3 /\ \E k \in Keys("f1") : (\E m \in Built : Load(m, "f1", k)) \/ FromFile("d", "f1", k)
 EnumSpec == EnumInit /\ [][EnumNext]_vars
+\* second pattern: save, recover, save AGAIN into the same archive (postfix or whole-file rewrite), recover
+\* again - results must not depend on anything remembered from the first recovery
+Enum2Next == \/ ops = 0 /\ \E pf \in Postfixes : SavePostfix("a", "f1", pf)
+             \/ ops \in {1, 3} /\ \E k \in Keys("f1") : (\E m \in Built : Load(m, "f1", k)) \/ (cfg["d"] = NULL /\ FromFile("d", "f1", k))
+             \/ ops = 2 /\ ((\E pf \in Postfixes : SavePostfix("b", "f1", pf)) \/ SaveWholeFile("c", "f1"))
+Enum2Spec == EnumInit /\ [][Enum2Next]_vars
 ====
